@@ -260,6 +260,11 @@ func (e *Env) auditHigherLevels(c *Chain) *Violation {
 						return e.fail("compaction-page-above-commit", "file %s contains page %d above its commit %d", k, pg, f.Hdr.Commit)
 					}
 				}
+			} else if f.Hdr.Timestamp < c.Times[k.Max] {
+				// a restore to a time between the two would start from this snapshot
+				// and so contain a transaction replicated after that time
+				v := e.fail("snapshot-older-than-content", "snapshot %s carries timestamp %d although its newest transaction (TXID %d) was replicated at %d: a timestamp restore in between returns data from after the requested time", k, f.Hdr.Timestamp, k.Max, c.Times[k.Max])
+				return v
 			}
 		}
 	}
